@@ -6,9 +6,11 @@
    The library functions are mirrored line by line, so that a removal which walks through a link deletes, in the model
    as on the OS, entries that physically live somewhere else.
 
-   [lstat_first] = true is the code after the fix "remove a symbolic link as a link" (Lstat before anything else in
-   RemoveWithContextAndExclusionPatterns and in garbageCollect); false is the code before it, kept for the refutation
-   theorems that document the repaired defect D10.
+   The model is PARAMETERISED by the fact records of Facts.v (which test comes first, which string an exclusion test is
+   applied to, whether the context is tested, what is handed down as [tested], the Lstat guards of garbageCollect and
+   RemoveWithPrivileges, ...).  Their values are generated from the source on every run (Gen.v); expected_rm /
+   expected_gc / expected_priv describe the repaired code, before_fix_* (Proofs.v) the code before the D10 fix, kept for
+   the refutation theorems.  The correspondence (check_case) evaluates the GENERATED instance.
    The exclusion patterns are handed down from CleanDir... to the per-entry removal as the C08 repair of defect D11
    does it: the entry NAME is tested for nested entries, the caller's path for the top entry. *)
 From Coq Require Import List ZArith Bool.
